@@ -54,7 +54,7 @@ class ProcSetup:
         if not self.ideal:
             cs = []
             for c in range(n_curves):
-                dc = DiffusionCurve.__new__(DiffusionCurve)
+                dc = build.bare(DiffusionCurve)
                 dc.mixture = self.mix
                 dc.membrane_name = "stub"
                 dc.feed_temperature = real("Tc%d%s" % (c, s))
